@@ -1806,6 +1806,10 @@ static void scn_ytrace(void)
         CHK(ABT_thread_create(g_pool[1 + rnd(g_nes - 1)][0], yt_body, &YT[i], ABT_THREAD_ATTR_NULL, &YT[i].th));
         EV("\"e\":\"CreateRet\",\"by\":0,\"u\":%d", i);
     }
+    /* nobody is freed before everybody has finished: a unit may be about to yield to a peer that
+     * it has just seen alive (the handle must stay valid) */
+    for (int i = 1; i <= g_nyt; i++)
+        CHK(ABT_thread_join(YT[i].th));
     for (int i = 1; i <= g_nyt; i++) {
         EV("\"e\":\"FreeCall\",\"by\":0,\"u\":%d", i);
         CHK(ABT_thread_free(&YT[i].th));
